@@ -148,7 +148,7 @@ def obligations(tier):
               'id < 10^5, gen < 702, compared against all pairs below 10^6', T),
         ch.ob('round-trip-reachable', 'harness.ch_c14', 'twin_round_trip', 'reachability twin', FUNCS_L, b4, T, expect_cex=True),
     ]
-    pool = [(0, 7, 2), (1, 7, 0), (2, 12, 27), (27, 4278190080, 1)] if tier == 'quick' else [(0, 7, 2), (1, 7, 0), (2, 12, 27), (27, 4278190080, 1), (3, 1, 0), (30, 99, 702)]
+    pool = [(0, 7, 2), (1, 7, 0), (2, 12, 27), (27, 4278190080, 1), (300, 5000, 300)] if tier == 'quick' else [(0, 7, 2), (1, 7, 0), (2, 12, 27), (27, 4278190080, 1), (3, 1, 0), (30, 99, 702), (300, 5000, 300), (70000, 70000, 70000)]
     cases = [(form, o, i, g, 1) for form in ('conn+obj', 'obj', 'conn', 'conn+obj.') for (o, i, g) in pool]
     cases += [(form, o, i, g, 2) for form in ('conn+obj', 'obj') for (o, i, g) in (pool[:1] if tier == 'quick' else pool)]
     obs.append(Ob('label-as-matcher', 'symx', 'the matcher parsed from a displayed label selects exactly the messages involving that incarnation / that connection', FUNCS_M,
